@@ -24,6 +24,7 @@ import (
 // "algo" task calling BalanceRR.Balance with all five algorithms directly, a
 // flapper (SetAvail), a reloader (real file loaders + BalTableReload +
 // SetGslbBasic/SetSlowStart, as gslbDataConfReload does), a basic-conf setter.
+//
 //go:norace
 func runC05(s *simrt.Sim) {
 	tp := s.Tape
